@@ -7,6 +7,7 @@ import Driver.C08
 import Driver.C16
 import Driver.TA
 import Driver.C10
+import Driver.C14
 
 def main (args : List String) : IO UInt32 :=
   match args with
@@ -19,4 +20,5 @@ def main (args : List String) : IO UInt32 :=
   | ["c16"] => Driver.C16.main
   | ["ta"] => Driver.TA.main
   | ["c10"] => Driver.C10.main
+  | ["c14"] => Driver.C14.main
   | _ => do IO.eprintln "usage: nridrv <property>"; return 2
